@@ -264,7 +264,11 @@ def run(ctx):
             ps = parts_of(whole, name)
             if not ps:
                 continue
-            prefix, part = ps[rng.randrange(len(ps))]
+            # which kind of part is moved cycles with the case index (coverage by construction); random among equals
+            want = ["Trajectory", "TrajectoryPrediction", "LaneletNetwork", "DynamicObstacle", "SetBasedPrediction",
+                    "StaticObstacle", None][(i // len(WHOLES)) % 7]
+            cand = [x for x in ps if type(x[1]).__name__ == want] or ps
+            prefix, part = cand[rng.randrange(len(cand))]
             before = spatial.extract(whole)
         except Exception as e:  # noqa
             ctx.violation("C05/harness/parts-%s-%s" % (name, type(e).__name__), repr(e)[:200], {"class": name})
